@@ -1049,6 +1049,11 @@ class Interp(Engine):
                 else:
                     yield s2, Raised(ExcVal(KeyError, origin=line))
             return
+        if kind == 'arr':
+            if isinstance(k, V) and k.ty.kind == 'opt' and v.ty.args[0].kind != 'opt':
+                k = V(opt_sort(to_sort(k.ty.args[0], self.reg)).val(k.t), k.ty.args[0])    # ghost arrays: spec only
+            yield st, V(z3.Select(v.t, self.key_term(k, v.ty.args[0], st)), v.ty.args[1])
+            return
         if kind == 'map':
             o = opt_sort(to_sort(v.ty.args[1], self.reg))
             cell = z3.Select(v.t, self.key_term(k, v.ty.args[0], st))
